@@ -351,7 +351,7 @@ def check(pid, tier):
     res = Result()
     binaries = {}
     runs = cfg[tier] if tier in cfg else cfg["quick"]
-    timeout = cfg.get(tier + "_timeout", 900 if tier == "quick" else 4 * 3600)
+    timeout = cfg.get(tier + "_timeout", 1500 if tier == "quick" else 4 * 3600)
     if os.environ.get("VERIF_TIMEOUT"):
         timeout = int(os.environ["VERIF_TIMEOUT"])  # (sensitivity runs on a loaded machine)
     # build what is needed (always from the current working tree of /repo)
